@@ -851,6 +851,12 @@ class IsoHybrid:
         padding = 0
         if frac > 0:
             padding = cylsize - frac
+        if self.efi:
+            # The backup GPT (the partition array and then the header) lives
+            # at the very end of the padding; it must not reach back into the
+            # ISO itself, so add whole cylinders until it fits.
+            while padding < (GPT_SIZE - 1) * 512:
+                padding += cylsize
         cc = min((iso_size + padding) // cylsize, 1024)
 
         return (cc, padding)
